@@ -80,6 +80,8 @@ ColumnNonZero(j) == \E i \in 1..Len(M) : M[i][j] # Zero
 ResponseBound == \A j \in 1..N : ColumnNonZero(j) => Extract(c, [Respond EXCEPT ![j] = Mod(@ + 1)], Y) # Commit
 (* a changed public image is detected whenever the challenge is non-zero *)
 StatementBound == c # 0 => \A i \in 1..Len(M) : Extract(c, Respond, [Y EXCEPT ![i] = AddG(@, E(6))]) # Commit
+(* every row of M is checked: the i-th recomputed commitment depends on the i-th public image *)
+EveryRowChecked == c # 0 => \A i \in 1..Len(M) : Extract(c, Respond, [Y EXCEPT ![i] = AddG(@, E(6))])[i] # Commit[i]
 (* special soundness: from two accepting transcripts with the same commitment and different challenges the witness is determined *)
 Inv(a) == CHOOSE x \in 1..(Q - 1) : Mod(a * x) = 1
 SpecialSound == \A c2 \in Fld \ {c} :
@@ -88,7 +90,10 @@ SpecialSound == \A c2 \in Fld \ {c} :
                    IN Apply(M, wx) = Y
 (* rows for the implementation: every witness component at a boundary class with the others random, every perturbation target *)
 WClasses == {[j \in 1..N |-> "rand"]} \cup {[j \in 1..N |-> IF j = k THEN cl ELSE "rand"] : k \in 1..N, cl \in {"0", "1", "r-1"}} \cup {[j \in 1..N |-> "0"]}
-Targets == {"none", "context", "challenge", "challenge_msb", "response_surplus"} \cup {Publics(Proto)[i] : i \in 1..Len(Publics(Proto))} \cup {"response_" \o ToString(j - 1) : j \in 1..N}
+(* "forge_skip_row": a transcript made for the statement without one of its rows (whose image is NOT the image of the witness - the full statement is false), hashed as the
+   full statement, with the response padded to the expected size.  Extract recomputes one commitment per row of M, so such a transcript can only be accepted by a verifier
+   that leaves a row out; protocols whose statement carries an index set (vcom_eq) are exposed to this. *)
+Targets == {"none", "context", "challenge", "challenge_msb", "response_surplus"} \cup (IF Proto = "vcom_eq" THEN {"forge_skip_row"} ELSE {}) \cup {Publics(Proto)[i] : i \in 1..Len(Publics(Proto))} \cup {"response_" \o ToString(j - 1) : j \in 1..N}
 Rows == {[kind |-> "sigma", protocol |-> Proto, wclass |-> wc, perturb |-> t] : wc \in WClasses, t \in Targets}
 ASSUME PrintT(<<"ROWS", ToJson(Rows)>>)
 =============================================================================
